@@ -234,7 +234,18 @@ func (fr *Frame) backEdge(b, h *ssa.BasicBlock, e *State) {
 		env := fr.envAt(b, e, back)
 		env.atLatch = true
 		g := c.evalBool(env, cl.Expr)
-		c.oblige(e, "inv-preserve", cl.Label, cl.Props, g, pos, fmt.Sprintf("loop %d invariant is preserved: %s", li.ordinal, cl.Src))
+		o := c.oblige(e, "inv-preserve", cl.Label, cl.Props, g, pos, fmt.Sprintf("loop %d invariant is preserved: %s", li.ordinal, cl.Src))
+		if o != nil && li.headState != nil {
+			if vals, plan := fr.stepReplayValues(li, e); plan != nil {
+				plan.Kind = "inv"
+				plan.Clause = cl
+				if fr.fc != nil && len(fr.fc.Params) > 0 {
+					plan.Names = fr.fc.Params
+				}
+				o.Values = vals
+				o.Replay = plan
+			}
+		}
 	}
 	if li.headState == nil {
 		return
